@@ -235,6 +235,51 @@ def ends_differ(p, bb, c0):
     return bool(first) and bool(last) and not (first & last)
 
 
+def const_lower_bound(p, bb, a0):
+    """the largest constant k with a0 >= k established by a comparison of a0 with a constant on the path before the site (0 if none)"""
+    best = 0
+    for c in conds_before(p, bb):
+        t = c.term
+        if not (isinstance(t, tuple) and t and t[0] == "binop" and c.fact[0] == "eq" and isinstance(c.fact[1], bool)):
+            continue
+        op, l, r = t[1], strip_refs(t[2]), strip_refs(t[3])
+        if l != a0 and r == a0 and op in ("Lt", "Le", "Gt", "Ge"):
+            l, r, op = r, l, {"Lt": "Gt", "Le": "Ge", "Gt": "Lt", "Ge": "Le"}[op]
+        kk = const_int(r)
+        if l != a0 or kk is None:
+            continue
+        if not c.fact[1]:
+            op = {"Lt": "Ge", "Le": "Gt", "Gt": "Le", "Ge": "Lt", "Eq": "Ne", "Ne": "Eq"}.get(op)
+        if op == "Ge":
+            best = max(best, kk)
+        elif op == "Gt":
+            best = max(best, kk + 1)
+        elif op == "Ne" and kk == 0:
+            best = max(best, 1)
+    return best
+
+
+def cursor_descending_from_len(ctx, body, t, coll):
+    """t is a loop-carried cursor that starts at len(coll) and is only ever decreased (or left alone) on the way round its loop: t <= len(coll)"""
+    t0 = strip_refs(t)
+    if not (isinstance(t0, tuple) and t0 and t0[0] == "havoc" and len(t0) > 3):
+        return False
+    l, h, init = t0[1], t0[2], t0[3]
+    c0 = _lib.coll(coll)
+    if not (length_of(init) is not None and length_of(init) == c0):
+        return False
+    backs = [q for q in (ctx.paths(body.key) or []) if q.end[0] == "back" and q.end[1] == h]
+    if not backs:
+        return False
+    for q in backs:
+        v = q.env.get(l)
+        if isinstance(v, tuple) and v[0] == "havoc" and v[1] == l:
+            continue
+        if not (isinstance(v, tuple) and v[0] == "binop" and v[1] == "Sub" and isinstance(v[2], tuple) and v[2][0] == "havoc" and v[2][1] == l and (const_int(v[3]) or -1) >= 0):
+            return False
+    return True
+
+
 def index_below_len(p, bb, ix, coll, strict=True):
     """ix < len(coll) (strict) / ix <= len(coll) established by a comparison on the path before the site"""
     i0 = strip_refs(ix)
@@ -370,6 +415,9 @@ def discharge(ctx, body, p, ev, kind):
                     if (t[1] == "Eq" and kk == 0 and c.fact[1] is False) or (t[1] == "Ne" and kk == 0 and c.fact[1] is True) or \
                             (t[1] == "Gt" and kk == 0 and c.fact[1] is True) or (t[1] == "Ge" and kk == 1 and c.fact[1] is True) or (t[1] == "Lt" and kk == 1 and c.fact[1] is False):
                         return "G3-checked-nonzero"
+        if k is not None and k >= 1 and isinstance(strip_refs(a), tuple) and strip_refs(a)[0] == "havoc" and "inlined_from" not in ev.data and body.f["locals"][strip_refs(a)[1]]["ty"] in ("usize", "u64", "u32", "u16", "u8") \
+                and const_lower_bound(p, bb, strip_refs(a)) >= k:
+            return "G3-checked-at-least-the-subtrahend"
         if k is not None and is_call(strip_refs(a), "::len"):
             coll = call_args(strip_refs(a))[0]
             if len_gt(p, bb, coll, k - 1):
@@ -423,6 +471,9 @@ def discharge(ctx, body, p, ev, kind):
         if isinstance(ixs, tuple) and ixs[0] == "binop" and ixs[1] == "Sub" and const_int(ixs[3]) == 1 and is_call(strip_refs(ixs[2]), "::len") \
                 and strip_refs(call_args(strip_refs(ixs[2]))[0]) == strip_refs(coll) and len_gt(p, bb, coll, 0):
             return "G3-last-of-nonempty"
+        # cursor - j (j >= 1, the subtraction is its own obligation) for a cursor that starts at the length and only ever goes down
+        if ctx is not None and isinstance(ixs, tuple) and ixs[0] == "binop" and ixs[1] == "Sub" and (const_int(ixs[3]) or 0) >= 1 and cursor_descending_from_len(ctx, body, ixs[2], coll):
+            return "G4-below-a-cursor-descending-from-the-length"
         return None
     if kind.startswith("call:"):
         nm = kind[5:]
@@ -484,6 +535,16 @@ def discharge(ctx, body, p, ev, kind):
                     return True
                 if is_call(t, "cmp::min", "Ord::min") and any(length_of(x) is not None and length_of(x) == c0 for x in call_args(t)[:2]):
                     return True
+                # the Some(..) of a crate helper given this very collection, when every Some it returns carries a cursor that started at the
+                # length of its argument and only went down
+                if isinstance(t, tuple) and len(t) > 2 and t[0] == "field" and t[2] == 0 and isinstance(t[1], tuple) and t[1][0] == "downcast" and t[1][2] == "Some":
+                    hc = strip_refs(t[1][1])
+                    if is_call(hc) and ctx.fx.fn(hc[1]) is not None and len(call_args(hc)) == 1 and _lib.coll(call_args(hc)[0]) == c0:
+                        hb, hp = ctx.body(hc[1]), ctx.paths(hc[1]) or []
+                        somes = [unwrap_some(q.end[1]) for q in ret_paths(hp) if unwrap_some(q.end[1]) is not None]
+                        if hb is not None and somes and all(cursor_descending_from_len(ctx, hb, v_, ("param", 1)) for v_ in somes) \
+                                and all(unwrap_some(q.end[1]) is not None or is_none(q.end[1]) for q in ret_paths(hp)):
+                            return True
                 return False
             ends = list(a_[2])
             if all(within(x) for x in ends) and (a_[1] != "Range" or const_int(strip_refs(ends[0])) == 0 or strip_refs(ends[0]) == strip_refs(ends[1])
@@ -1041,6 +1102,24 @@ def termination(ctx):
                     adv = {l for l in ls if isinstance(p.env.get(l), tuple) and p.env.get(l)[0] == "binop" and p.env.get(l)[1] == "Add" and isinstance(p.env.get(l)[2], tuple)
                            and p.env.get(l)[2][0] == "havoc" and p.env.get(l)[2][1] == l and (const_int(p.env.get(l)[3]) or 0) > 0}
                     cur_ok = adv if cur_ok is None else (cur_ok & adv)
+                if backs_ and not cur_ok:
+                    # the mirror image: every way round first checked cursor >= k / > k / != 0 (k >= 0) and then moved the cursor down by a positive constant
+                    dn_ok = None
+                    for p in backs_:
+                        ls = set()
+                        for c in p.conds():
+                            t_ = c.term
+                            if isinstance(t_, tuple) and t_[0] == "binop" and isinstance(t_[2], tuple) and t_[2][0] == "havoc" and t_[2][2] == h and const_int(t_[3]) is not None and const_int(t_[3]) >= 0 \
+                                    and ((t_[1] in ("Ge", "Gt") and c.fact == ("eq", True)) or (t_[1] in ("Lt", "Le") and c.fact == ("eq", False)) or (t_[1] == "Ne" and const_int(t_[3]) == 0 and c.fact == ("eq", True))
+                                         or (t_[1] == "Eq" and const_int(t_[3]) == 0 and c.fact == ("eq", False))) and body.f["locals"][t_[2][1]]["ty"] in ("usize", "u64", "u32", "u16", "u8"):
+                                ls.add(t_[2][1])
+                        dn = {l for l in ls if isinstance(p.env.get(l), tuple) and p.env.get(l)[0] == "binop" and p.env.get(l)[1] == "Sub" and isinstance(p.env.get(l)[2], tuple)
+                              and p.env.get(l)[2][0] == "havoc" and p.env.get(l)[2][1] == l and (const_int(p.env.get(l)[3]) or 0) > 0}
+                        dn_ok = dn if dn_ok is None else (dn_ok & dn)
+                    if dn_ok:
+                        ctx.ok("TERM", key, "loop[descending-cursor]%s" % ("" if list(sorted(body.loops)).index(h) == 0 else "#%d" % (sorted(body.loops).index(h) + 1)),
+                               "every iteration checks the unsigned cursor against a lower bound and moves it down", body.span_of(h))
+                        continue
                 if backs_ and cur_ok:
                     ctx.ok("TERM", key, "loop[bounded-cursor]%s" % ("" if list(sorted(body.loops)).index(h) == 0 else "#%d" % (sorted(body.loops).index(h) + 1)),
                            "every iteration checks cursor < len and advances the cursor", body.span_of(h))
